@@ -77,12 +77,14 @@ def dijkstra[S](
         iterations += 1
         closed.add(current)
 
+        # Budget first: nodes come off the heap in cost order, so a goal popped beyond max_cost is out of reach
+        # (testing the goal first returned whichever over-budget route had been pushed, not the shortest one)
+        if max_cost is not None and cost > max_cost:
+            continue
+
         if is_goal(current):
             path = reconstruct_path(parent, current)
             return Result(path, g[current], iterations, evaluations)
-
-        if max_cost is not None and cost > max_cost:
-            continue
 
         for neighbor, edge_cost in neighbors(current):
             if neighbor in closed:
